@@ -359,6 +359,20 @@ func runC17(r *ev.Recorder) {
 			}
 		}
 	}
+	// (l) one map handed to Tag for two fields; the second field gets a further Tag call: the first
+	// field shows exactly the map's original content, and the caller's map is untouched
+	{
+		m := map[string]string{"db": "id", "json": "id"}
+		a := jen.Id("A").String().Tag(m)
+		jen.Id("B").Int().Tag(m).Tag(map[string]string{"json": "b", "xml": "b"})
+		got := jh.Raw(jen.Struct(a))
+		want := jh.Raw(jen.Struct(jen.Id("A").String().Tag(map[string]string{"db": "id", "json": "id"})))
+		r.Eval(1)
+		r.Distinct("shared-map-second-tag-call")
+		if got.Key() != want.Key() || len(m) != 2 || m["json"] != "id" {
+			r.Violate(ev.Violation{Signature: "c17:second-Tag-call-on-another-field", What: fmt.Sprintf("field A with Tag(m) renders %q after field B got Tag(m).Tag(extra), want %q; the caller's map is now %v", got, want, m), Case: ev.JSON(c17Case{Keys: []string{"shared-map"}})})
+		}
+	}
 	// (j) tags rendered stand-alone (Statement.GoString / Render) straight after fragment renders that
 	// failed in gofmt or panicked and were recovered: the literal must be the one a File renders
 	{
